@@ -38,7 +38,7 @@ def run_detailed(ctx, count, seed, prop, modes=(0,), variant="plain"):
     lines = common.corpus(prop, ("DP ",))
     for m in modes:
         lines += common.harness_gen(harness, ["rand", seed + m, count // len(modes), m])
-    impl, _, _ = common.run_both([harness, "run"], None, lines, chunk=200)
+    impl, _, _ = common.run_both([harness, "run"], None, lines, chunk=200, timeout=300)
     res = {"runs": len(lines), "states": 0, "nontrivial": 0, "legal_fail": [], "orient_fail": [], "hpwl_fail": [], "fixed_fail": [],
            "throw_fail": [], "frame_fail": [], "crash": [], "lines": lines, "impl": impl, "outcomes": {}, "callbacks": 0,
            "moved_runs": 0, "polarity_orient_changed_runs": 0, "hpwl_improved_runs": 0}
